@@ -129,3 +129,97 @@ Proof.
   - intros F T. apply He in F. destruct F as [_ Q]. rewrite Q, T in Hd.
     rewrite app_nil_r in Hd. exact Hd.
 Qed.
+
+(* ---------------------------------------------------------------------- *)
+(* progress: a state that has not reached end-of-file always has an        *)
+(* enabled step                                                             *)
+
+Lemma chan_progress : forall c,
+  1 <= pcap (cpipe c) -> length (pq (cpipe c)) <= pcap (cpipe c) ->
+  rclosed (cpipe c) = false -> ceof c = false ->
+  exists s, enabled c s = true.
+Proof.
+  intros c Hc Hl Hr He. unfold enabled, chan_eqb_progress.
+  destruct (pq (cpipe c)) as [|x q] eqn:Q.
+  - destruct (wclosed (cpipe c)) eqn:W.
+    + exists (Cons 1). unfold chan_step, pipe_read. cbn [Nat.eqb]. rewrite Q, W.
+      cbn [ceof cgot ctodo cpipe]. rewrite He. cbn. rewrite !orb_true_r. reflexivity.
+    + destruct (ctodo c) as [|y t] eqn:T.
+      * exists CloseW. unfold chan_step. cbn [ceof cgot ctodo cpipe pipe_close_w wclosed].
+        cbn. rewrite !orb_true_r. reflexivity.
+      * exists (Prod 1). unfold chan_step. rewrite W. cbn [firstn].
+        unfold pipe_write. rewrite Hr. unfold pipe_free. rewrite Q. cbn [length].
+        replace (Nat.min 1 (pcap (cpipe c) - 0)) with 1 by lia. cbn [Nat.eqb].
+        cbn [ceof cgot ctodo cpipe skipn length]. rewrite T. cbn [length].
+        replace (length t <? S (length t)) with true by (symmetry; apply Nat.ltb_lt; lia).
+        reflexivity.
+  - exists (Cons 1). unfold chan_step, pipe_read. cbn [Nat.eqb]. rewrite Q.
+    cbn [ceof cgot ctodo cpipe firstn]. rewrite app_length. cbn [length].
+    replace (length (cgot c) <? length (cgot c) + 1) with true
+      by (symmetry; apply Nat.ltb_lt; lia).
+    rewrite orb_true_r. reflexivity.
+Qed.
+
+(* the only way a producer with data and an open end is blocked: the pipe is
+   full, i.e. the other side does not read *)
+Lemma prod_blocked_iff : forall c k,
+  rclosed (cpipe c) = false -> wclosed (cpipe c) = false ->
+  0 < k -> ctodo c <> [] ->
+  (enabled c (Prod k) = false <-> pcap (cpipe c) <= length (pq (cpipe c))).
+Proof.
+  intros c k Hr W Hk T. unfold enabled, chan_eqb_progress, chan_step. rewrite W.
+  destruct (ctodo c) as [|y t] eqn:Ht; [congruence|].
+  destruct k as [|k]; [lia|]. cbn [firstn].
+  unfold pipe_write. rewrite Hr.
+  remember (Nat.min (length (y :: firstn k t)) (pipe_free (cpipe c))) as m eqn:Em.
+  unfold pipe_free in Em. cbn [length] in Em.
+  destruct (Nat.eqb_spec m 0) as [E|E].
+  - rewrite W, Ht. rewrite Nat.ltb_irrefl. cbn. rewrite Nat.ltb_irrefl.
+    destruct (ceof c); cbn; split; auto; intros _; lia.
+  - cbn [ctodo cgot ceof cpipe]. split; [|intros F; lia].
+    intros F. exfalso.
+    rewrite !orb_false_iff in F. destruct F as [[[F _] _] _].
+    apply Nat.ltb_ge in F. rewrite skipn_length in F. cbn [length] in F. lia.
+Qed.
+
+(* ... and in that state a read is enabled *)
+Lemma full_pipe_read_enabled : forall c k,
+  1 <= pcap (cpipe c) -> pcap (cpipe c) <= length (pq (cpipe c)) -> 0 < k ->
+  enabled c (Cons k) = true.
+Proof.
+  intros c k Hc Hf Hk. unfold enabled, chan_eqb_progress, chan_step, pipe_read.
+  destruct k as [|k]; [lia|]. cbn [Nat.eqb].
+  destruct (pq (cpipe c)) as [|x q] eqn:Q; [cbn [length] in Hf; lia|].
+  cbn [ceof cgot ctodo cpipe firstn]. rewrite app_length. cbn [length].
+  replace (length (cgot c) <? length (cgot c) + S (length (firstn k q))) with true
+    by (symmetry; apply Nat.ltb_lt; lia).
+  rewrite orb_true_r. reflexivity.
+Qed.
+
+(* without a reader a full pipe stays full: the producer (the child) makes no
+   progress however often it is scheduled ("wait before drain" with an output
+   above the capacity never terminates, in the operating system as well) *)
+Lemma no_reader_no_progress : forall sch c,
+  forallb (fun s => negb (is_cons s)) sch = true ->
+  rclosed (cpipe c) = false ->
+  pcap (cpipe c) <= length (pq (cpipe c)) ->
+  ctodo (run sch c) = ctodo c /\ cgot (run sch c) = cgot c /\
+  pq (cpipe (run sch c)) = pq (cpipe c).
+Proof.
+  induction sch as [|s r IH]; intros c Hs Hr Hf; cbn [run]; auto.
+  cbn [forallb] in Hs. apply andb_true_iff in Hs. destruct Hs as [Hs1 Hs2].
+  assert (G : ctodo (chan_step c s) = ctodo c /\ cgot (chan_step c s) = cgot c /\
+              cpipe (chan_step c s) = cpipe c \/
+              ctodo (chan_step c s) = ctodo c /\ cgot (chan_step c s) = cgot c /\
+              cpipe (chan_step c s) = pipe_close_w (cpipe c)).
+  { destruct s as [k|k|]; [|discriminate|right; cbn; auto].
+    left. unfold chan_step. destruct (wclosed (cpipe c)); auto.
+    unfold pipe_write. rewrite Hr. destruct (firstn k (ctodo c)) as [|y t] eqn:F; cbn; auto.
+    unfold pipe_free. replace (pcap (cpipe c) - length (pq (cpipe c))) with 0 by lia.
+    rewrite Nat.min_0_r. cbn. auto. }
+  destruct G as [(G1 & G2 & G3)|(G1 & G2 & G3)].
+  - destruct (IH (chan_step c s)) as (I1 & I2 & I3); auto; try (rewrite G3; auto).
+    rewrite I1, I2, I3, G1, G2, G3. auto.
+  - destruct (IH (chan_step c s)) as (I1 & I2 & I3); auto; try (rewrite G3; cbn; auto).
+    rewrite I1, I2, I3, G1, G2, G3. cbn. auto.
+Qed.
